@@ -3265,6 +3265,18 @@ where
             cv.state.generic_rules = self.state.generic_rules.clone();
             cv.state.eval_generic_rule = Some(ident.ident);
             cv.state.visited_rules = self.state.visited_rules.clone();
+            // The instantiated rule counts as visited at this data location, so a
+            // generic rule that refers back to itself without consuming input
+            // (`g<T> = g<T> / T`) is reported instead of recursing forever
+            let visited_key = format!("{}\u{0}{}", ident.ident, self.state.data_location);
+            if !cv.state.visited_rules.insert(visited_key) {
+              self.add_error(format!(
+                "Recursive rule reference detected: {}. This may indicate a circular definition in the CDDL schema.",
+                ident.ident
+              ));
+              return Ok(());
+            }
+            cv.state.data_location = self.state.data_location.clone();
             cv.state.is_group_to_choice_enum = true;
             cv.state.is_multi_type_choice = self.state.is_multi_type_choice;
             cv.visit_rule(rule)?;
@@ -3337,6 +3349,18 @@ where
             cv.state.generic_rules = self.state.generic_rules.clone();
             cv.state.eval_generic_rule = Some(ident.ident);
             cv.state.visited_rules = self.state.visited_rules.clone();
+            // The instantiated rule counts as visited at this data location, so a
+            // generic rule that refers back to itself without consuming input
+            // (`g<T> = g<T> / T`) is reported instead of recursing forever
+            let visited_key = format!("{}\u{0}{}", ident.ident, self.state.data_location);
+            if !cv.state.visited_rules.insert(visited_key) {
+              self.add_error(format!(
+                "Recursive rule reference detected: {}. This may indicate a circular definition in the CDDL schema.",
+                ident.ident
+              ));
+              return Ok(());
+            }
+            cv.state.data_location = self.state.data_location.clone();
             cv.state.is_multi_type_choice = self.state.is_multi_type_choice;
             cv.visit_rule(rule)?;
 
@@ -3410,6 +3434,18 @@ where
             cv.state.generic_rules = self.state.generic_rules.clone();
             cv.state.eval_generic_rule = Some(ident.ident);
             cv.state.visited_rules = self.state.visited_rules.clone();
+            // The instantiated rule counts as visited at this data location, so a
+            // generic rule that refers back to itself without consuming input
+            // (`g<T> = g<T> / T`) is reported instead of recursing forever
+            let visited_key = format!("{}\u{0}{}", ident.ident, self.state.data_location);
+            if !cv.state.visited_rules.insert(visited_key) {
+              self.add_error(format!(
+                "Recursive rule reference detected: {}. This may indicate a circular definition in the CDDL schema.",
+                ident.ident
+              ));
+              return Ok(());
+            }
+            cv.state.data_location = self.state.data_location.clone();
             cv.state.is_multi_type_choice = self.state.is_multi_type_choice;
             cv.visit_rule(rule)?;
 
